@@ -168,7 +168,11 @@ Inductive rexpr :=
 | EParam (x : string)
 | EConst (v : val)
 | ETup (l : list rexpr)
-| ELst (l : list rexpr).
+| ELst (l : list rexpr)
+| EIs (x : string) (v : val) (a b : rexpr).
+   (* `a if x is <the object v> else b`: identity against a default object (a sentinel
+      `_S = object()`, printed as VMap "object" [("id", name)], or a module-level list); the
+      scenarios never pass an equal-but-distinct object, so identity is equality of the model values *)
 
 Record rsrc := { r_frags : list string; r_expr : rexpr }.
 
@@ -652,6 +656,8 @@ Fixpoint eval (env : list (string * val)) (e : rexpr) {struct e} : val :=
   | EConst v => v
   | ETup l => VTup ((fix go (l : list rexpr) := match l with [] => [] | x :: r => eval env x :: go r end) l)
   | ELst l => VList ((fix go (l : list rexpr) := match l with [] => [] | x :: r => eval env x :: go r end) l)
+  | EIs x v a b =>
+      if val_eqb (match sassoc x env with Some w => w | None => VNotData end) v then eval env a else eval env b
   end.
 Definition eval_stmt (env : list (string * val)) (s : rstmt) : val :=
   match s with
